@@ -197,4 +197,69 @@ example : (fitSimple true .true_positive_rate .accuracy_score 5 ex none).map
     (fun f => gamma (eventOf .tpr) (thrRows exNames ex) 1 defaultUtil (thrPred f.rules ex)) =
     some [0, 0, 0, 0, 0, 0] := by decide +kernel
 
+/-! ## Work package L3: from `gamma = 0` to the user-facing metric (ThresholdOptimizer end to end)
+
+`threshold_*_gamma_zero` says the fitted rule's expected predictions make every entry of the matching moment's gamma
+vanish.  Through C06X (`meanpred_difference_le_of_constraint` at `eps = 0`) the `mean_prediction` difference that
+`fairlearn.metrics.MetricFrame` reports for these expected predictions on the rows of each event — all rows for
+demographic parity; the positives / the negatives for the TPR / FPR / equalized-odds constraints — is EXACTLY 0, for
+both `method`s.  (This is the second half of crosscheck relation `X1.threshold-gamma-zero`.) -/
+
+/-- any prediction vector whose difference-form gamma vanishes entrywise has `mean_prediction` difference exactly 0
+    on the rows of every observed event -/
+theorem meanpred_difference_zero_of_gamma_zero (ev : Ev) (rows : List Moments.Row) (h : List Rat) (e : String)
+    (hl : h.length = rows.length) (hne : ∃ g, Observed ev rows e g)
+    (hz : ∀ key ∈ index ev rows, gammaAt ev rows 1 defaultUtil h key = 0) :
+    Fairness.run .meanpred .difference .toOverall true 1 (toFrame (inE ev e) rows h) = .value (XR.fin 0) ∧
+    Fairness.run .meanpred .difference .between true 1 (toFrame (inE ev e) rows h) = .value (XR.fin 0) := by
+  have hg : GammaLe ev rows 1 defaultUtil h 0 := by
+    intro key hk; rw [hz key hk]
+  obtain ⟨⟨D1, h1, h10, h11⟩, ⟨D2, h2, h20, h21⟩⟩ := C06.meanpred_difference_le_of_constraint ev rows h 0 e hl hne hg
+  have e1 : D1 = 0 := le_antisymm h11 h10
+  have e2 : D2 = 0 := le_antisymm (by linarith) h20
+  rw [h1, h2, e1, e2]
+  exact ⟨rfl, rfl⟩
+
+/-- **ThresholdOptimizer(demographic_parity / selection_rate_parity) ⇒ `mean_prediction` difference of the expected
+    predictions = 0** on the training data (both methods) -/
+theorem threshold_dp_meanpred_difference_zero (flip : Bool) (ym : Metric) (N : Nat) (names : List String)
+    (groups : List (List Threshold.Row)) (force : Option Nat) (fit : Fit) (hN : 1 ≤ N) (hnd : names.Nodup)
+    (hl : names.length = groups.length) (hne : thrRows names groups ≠ [])
+    (hfit : fitSimple flip .selection_rate ym N groups force = some fit) :
+    Fairness.run .meanpred .difference .toOverall true 1
+        (toFrame (inE (eventOf .dp) MomentsSrc.allEvent) (thrRows names groups) (thrPred fit.rules groups)) = .value (XR.fin 0) ∧
+    Fairness.run .meanpred .difference .between true 1
+        (toFrame (inE (eventOf .dp) MomentsSrc.allEvent) (thrRows names groups) (thrPred fit.rules groups)) = .value (XR.fin 0) := by
+  obtain ⟨_, _, hrl, _⟩ := parity_simple flip .selection_rate ym N groups force fit hN (by decide +kernel) hfit
+  obtain ⟨r0, hr0⟩ := List.exists_mem_of_ne_nil _ hne
+  apply meanpred_difference_zero_of_gamma_zero _ _ _ _ (thr_lengths names groups _ hl (by simp [hrl]))
+  · exact ⟨r0.g, r0, hr0, by rw [event_shape .dp r0 (thrRows_shape hr0).1]; rfl, rfl⟩
+  · exact threshold_dp_gamma_zero flip ym N names groups force fit hN hnd hl hfit
+
+/-- **ThresholdOptimizer(equalized_odds) ⇒ the expected TPRs (`lab = 1`) and expected FPRs (`lab = 0`) of all groups
+    coincide with the overall ones**: `mean_prediction` difference 0 on the rows with label `lab` -/
+theorem threshold_eo_meanpred_difference_zero (flip : Bool) (obj : Metric) (N : Nat) (names : List String)
+    (groups : List (List Threshold.Row)) (force : Option Nat) (fit : Fit) (yBest : Rat) (hN : 1 ≤ N)
+    (hnd : names.Nodup) (hl : names.length = groups.length)
+    (hfit : fitEO flip obj N groups force = some (fit, yBest)) (lab : Int)
+    (hne : ∃ g, Observed (eventOf .eo) (thrRows names groups) (MomentsSrc.labelEvent lab) g) :
+    Fairness.run .meanpred .difference .toOverall true 1
+        (toFrame (inE (eventOf .eo) (MomentsSrc.labelEvent lab)) (thrRows names groups) (thrPred fit.rules groups)) = .value (XR.fin 0) ∧
+    Fairness.run .meanpred .difference .between true 1
+        (toFrame (inE (eventOf .eo) (MomentsSrc.labelEvent lab)) (thrRows names groups) (thrPred fit.rules groups)) = .value (XR.fin 0) := by
+  obtain ⟨_, _, hrl, _⟩ := parity_EO flip obj N groups force fit yBest hN hfit
+  exact meanpred_difference_zero_of_gamma_zero _ _ _ _ (thr_lengths names groups _ hl (by simp [hrl])) hne
+    (threshold_eo_gamma_zero flip obj N names groups force fit yBest hN hnd hl hfit)
+
+/-- non-vacuity: the 3-group example, demographic parity and equalized odds (positives) -/
+example : (fitSimple false .selection_rate .balanced_accuracy_score 3 ex none).map
+    (fun f => Fairness.run .meanpred .difference .between true 1
+      (toFrame (inE (eventOf .dp) MomentsSrc.allEvent) (thrRows exNames ex) (thrPred f.rules ex))) = some (.value (XR.fin 0)) := by
+  decide +kernel
+example : thrRows exNames ex ≠ [] := by decide +kernel
+example : (fitEO false .accuracy_score 4 ex none).map
+    (fun f => Fairness.run .meanpred .difference .toOverall true 1
+      (toFrame (inE (eventOf .eo) (MomentsSrc.labelEvent 1)) (thrRows exNames ex) (thrPred f.1.rules ex))) = some (.value (XR.fin 0)) := by
+  decide +kernel
+
 end C04
